@@ -26,7 +26,8 @@ POINTS_CLIENT = ["connecting", "cer_sent", "open_idle", "open_traffic", "open_pa
 POINTS_SERVER = ["accepted_no_cer", "open_idle", "open_traffic", "open_parked", "open_backlog", "closing"]
 CAUSES = {
     "connecting": ["refused", "local_close", "never"],
-    "cer_sent": ["peer_eof", "peer_rst", "local_close", "non_cea", "local_close_cross_cea"],
+    "cer_sent": ["peer_eof", "peer_rst", "local_close", "non_cea", "local_close_cross_cea", "peer_cer_then_eof",
+                 "peer_cer_then_local_close"],
     "accepted_no_cer": ["peer_eof", "peer_rst"],
     "open_idle": ["local_close", "peer_dpr", "peer_eof", "peer_rst", "peer_dpr_then_rst"],
     "open_traffic": ["local_close", "peer_dpr", "peer_eof", "peer_rst", "peer_dpr_then_rst"],
@@ -316,6 +317,14 @@ class C08(Check):
                     w.peer.send(C.cea(PEER_HOST, PEER_REALM, hbh=cers[-1]["hbh"], e2e=cers[-1]["e2e"]))
             elif cause == "peer_dpr":
                 w.peer.send(C.dpr(PEER_HOST, PEER_REALM, hbh=0x77, e2e=0x88))
+            elif cause in ("peer_cer_then_eof", "peer_cer_then_local_close"):
+                # the peer opens an election (CER while we wait for its CEA), then the connection ends
+                w.peer.send(C.cer(PEER_HOST, PEER_REALM, hbh=0x7c, e2e=0x8d))
+                sim.sleep(scn.get("rst_gap", 0.0) + 6 * tick)
+                if cause == "peer_cer_then_eof":
+                    w.peer.close()
+                else:
+                    closer = w.call("close", w.node.close)
             elif cause == "peer_dpr_then_rst":
                 # the peer announces the disconnect and is gone before our DPA can be written
                 w.peer.b["answer_dpr"] = False
@@ -349,11 +358,11 @@ class C08(Check):
                 pass       # the cause is the connect outcome itself
             # a local close issued while the state machine reports Closed is refused by the API
             # (documented guard): then there is no connection to end
-            if cause in ("local_close", "local_close_cross_cea"):
+            if cause in ("local_close", "local_close_cross_cea", "peer_cer_then_local_close"):
                 sim.wait_until(lambda: closer["t1"] is not None, D, poll=0.002)
                 st["close_call"] = {"ok": closer["ok"], "exc": closer["exc"]}
 
-            if cause in ("local_close", "local_close_cross_cea") and st.get("close_call", {}).get("ok") is False and \
+            if cause in ("local_close", "local_close_cross_cea", "peer_cer_then_local_close") and st.get("close_call", {}).get("ok") is False and \
                     "already closed" in (st["close_call"]["exc"] or ""):
                 # the API refused the close() because the state machine (truthfully)
                 # reported Closed at that instant: the caller was told, no cause was applied
